@@ -242,6 +242,7 @@ pub fn net_cfg(cell: &Cell, p: &TraceParams, topo: Topo, menu: Menu) -> NetCfg {
         fixed_sport: matches!(cell.ports, Ports::FixedSrc | Ports::FixedBoth).then_some(FIXED_SPORT),
         fixed_dport: matches!(cell.ports, Ports::FixedDest | Ports::FixedBoth).then_some(FIXED_DPORT),
         reroute: None,
+        tcp_rtt_ns: None,
     }
 }
 
@@ -348,6 +349,12 @@ pub fn topo_named(cell: &Cell, name: &str) -> Topo {
             t.hops.iter_mut().for_each(|h| h.kind = HopKind::Silent);
             t
         }
+        "far-target-from-round-2" => {
+            // 99 silent routers; the target at distance 100 is silent in rounds 0 and 1
+            let mut t = topo_linear(cell, 100, Target::AnswersFromRound(2));
+            t.hops.iter_mut().for_each(|h| h.kind = HopKind::Silent);
+            t
+        }
         "silent-all" => {
             let mut t = topo_linear(cell, 3, Target::Silent);
             t.hops.iter_mut().for_each(|h| h.kind = HopKind::Silent);
@@ -367,7 +374,7 @@ pub fn topo_named(cell: &Cell, name: &str) -> Topo {
 }
 
 /// Every topology name `topo_named` understands (replay artefacts name one of these).
-pub const TOPO_NAMES: &[&str] = &["L1", "L2", "L3", "L3-flaky", "L4", "grow-2-3", "grow-2-4", "shrink-4-2", "shrink-4-3", "shrink-3-2", "silent-mid", "silent-target", "silent-all", "every-other", "dup", "ecmp", "refuse", "far-target-late"];
+pub const TOPO_NAMES: &[&str] = &["L1", "L2", "L3", "L3-flaky", "L4", "grow-2-3", "grow-2-4", "shrink-4-2", "shrink-4-3", "shrink-3-2", "silent-mid", "silent-target", "silent-all", "every-other", "dup", "ecmp", "refuse", "far-target-late", "far-target-from-round-2"];
 pub const TOPOLOGIES: &[&str] = &["L1", "L2", "L3", "silent-mid", "silent-target", "every-other", "dup", "ecmp"];
 
 // ---------------------------------------------------------------------------------------------
